@@ -89,6 +89,8 @@ func universe() []namedVal {
 		// callables that panic (string, error value, custom value) and one whose typed pointer parameter may get nil
 		{"fnPanicS", func() string { panic("panic with a plain string") }}, {"fnPanicE", func() string { panic(errors.New("panic with an error value")) }},
 		{"fnPanicC", func(i int) string { panic(struct{ Code int }{i}) }}, {"fnTakesPtr", func(p *inner) string { return fmt.Sprint(p == nil) }},
+		// structs whose type is comparable but whose interface-typed field holds something that is not
+		{"stUncmp", uncmp{X: []int{1}}}, {"stUncmp2", uncmp{X: []int{1}}}, {"slUncmp", []uncmp{{X: map[string]int{"a": 1}}, {X: 1}}}, {"ifUncmp", any(uncmp{X: []string{"a"}})},
 		{"fnNilValue", func() *pongo2.Value { return nil }}, {"fnNilValueErr", func() (*pongo2.Value, error) { return nil, nil }},
 		{"fnVarS", func(p string, xs ...string) string { return p }}, {"fnVarV", func(xs ...*pongo2.Value) int { return len(xs) }}, {"fnVarA", func(xs ...any) int { return len(xs) }},
 	}
@@ -101,3 +103,5 @@ func universeCtx() pongo2.Context {
 	}
 	return c
 }
+
+type uncmp struct{ X any }
